@@ -113,6 +113,16 @@ def convergence_tests(fn):
                 if cal is not None and cal.cls == fn.cls and cal.key not in seen and cal.body is not None:
                     seen.add(cal.key)
                     hosts.append(cal)
+            # closures created in the host (the iteration may live in a local lambda; a generic
+            # lambda is represented by its instantiated specialisations)
+            for lam in walk(h.body):
+                if lam.get("k") != "lambda":
+                    continue
+                for fid in ([lam["fid"]] if lam.get("fid") is not None else []) + list(lam.get("fids", []) or []):
+                    lf = h.unit.fns.get(fid)
+                    if lf is not None and lf.key not in seen and lf.body is not None:
+                        seen.add(lf.key)
+                        hosts.append(lf)
     for h in hosts:
         for loop in walk(h.body):
             if loop.get("k") not in ("while", "do", "for"):
